@@ -400,9 +400,12 @@ def eval_batch(rep, case):
     import static_frame as sf
     n, op, perm = case['n'], case['op'], case['perm']
     items = batch_frames(n)
+    if case.get('dup') and n >= 2:
+        # a Batch does not require distinct labels: the last item carries the label of the first one (one result per INPUT is still due, in input order)
+        items[-1] = (items[0][0], items[-1][1])
     tag = 'threads' if case['threads'] else 'processes'
     rp = dict(case)
-    rep.count(distinct_key=(op, n, tuple(perm), case['w'], case['c'], case['threads'], case.get('raise_at'), case.get('raise_other_at')), sample=dict(case))
+    rep.count(distinct_key=(op, n, tuple(perm), case['w'], case['c'], case['threads'], case.get('raise_at'), case.get('raise_other_at'), case.get('dup')), sample=dict(case))
     DELAYS.clear()
     RAISE.clear()
     RAISE_OTHER.clear()
@@ -499,6 +502,10 @@ def cases_batch(tier):
                             yield dict(area='batch', op=op, n=n, perm=list(range(n))[::-1], w=w, c=1, threads=True, raise_other_at=pos, export='items')
                             if n >= 2:      # one task fails with the requested class, another with a different one
                                 yield dict(area='batch', op=op, n=n, perm=list(range(n)), w=w, c=1, threads=True, raise_at=(pos + 1) % n, raise_other_at=pos, export='items')
+    for n in (2, 3):             # repeated labels
+        for op in BATCH_OPS:
+            for w in (1, 2):
+                yield dict(area='batch', op=op, n=n, perm=list(range(n)), w=w, c=1, threads=True, export='items', dup=True)
     for n in (3,) if quick else (1, 2, 3, 4):
         perms = list(itertools.permutations(range(n)))
         for k, op in enumerate(BATCH_OPS):
